@@ -6,6 +6,7 @@ scratch_clean_rule   an accumulating dense kernel (?matvec always, ?gemv_/?gemm_
 strided_cursor_rule  a cursor advanced by a stride parameter (jx += incx) walks a vector in lock step with the enclosing loop: the increment must be an
                      unconditional statement of the loop body (executed exactly once per iteration).
 """
+import re
 from ..facts import strip, callee_name, const_value, loc, root_ref, canon
 from ..ir import pretty
 
@@ -761,3 +762,109 @@ def _show(lf):
     for k in sorted(lf, key=str):
         parts.append(('%d' % lf[k]) if k == 1 else ('%s' % k if lf[k] == 1 else '%d*%s' % (lf[k], k)))
     return ' + '.join(parts) or '0'
+
+
+def beta_zero_rule(chk, cid, prog, p, cfgname):
+    """sp_?gemv documents `when BETA is supplied as zero then Y need not be set on input`: in the y := beta*y step the case beta == 0 has to *assign*
+    zero (beta*y would keep a NaN/Inf that happens to be in y).  Both the unit-stride and the strided form of the step need the special case: under a
+    test of beta against zero there is a loop whose only store to y is the constant zero."""
+    f = prog.func('sp_%sgemv' % p)
+    if f is None:
+        from ..run import AnalysisBroken
+        raise AnalysisBroken('sp_%sgemv not found' % p)
+    chk.saw(unit=f.unit, func=f.unit + ':' + f.name)
+    ids = {nm: i for (nm, i, t) in f.params}
+    yid = ids.get('y')
+
+    def tests_beta_zero(c):
+        c = strip(c)
+        if c.k == 'Binary' and c.a['op'] == '==':
+            a, b = strip(c.c[0]), strip(c.c[1])
+            if (a.k == 'Ref' and a.a.get('name') == 'beta' and _is_zero(b, f)) or (b.k == 'Ref' and b.a.get('name') == 'beta' and _is_zero(a, f)):
+                return True
+        # complex: z_eq(&beta, &comp_zero) expands to  (&beta)->r == (&comp_zero)->r && (&beta)->i == (&comp_zero)->i
+        txt = pretty(c)
+        if (c.k == 'Call' and callee_name(c) in ('z_eq', 'c_eq')) or (c.k == 'Binary' and c.a['op'] == '&&'):
+            return 'beta' in txt and 'comp_zero' in txt and '||' not in txt and '!=' not in txt
+        return False
+    good = 0
+    for x in f.body.walk():
+        if x.k == 'If' and tests_beta_zero(x.c[0]):
+            st = [y for y in x.c[1].walk() if y.k == 'Assign' and root_ref(y.c[0]) is not None and root_ref(y.c[0]).a.get('id') == yid]
+            if st and all(y.a['op'] == '=' and _is_zero(y.c[1], f) for y in st) and any(z.k == 'For' for z in x.c[1].walk()):
+                good += 1
+    inst = '%s:beta-zero-assigns' % f.name
+    if good >= 2:
+        chk.ok(cid, inst, sample='%d branches assign zero to y when beta == 0' % good)
+    else:
+        chk.violate(cid, inst, loc(f, f.body), f.name,
+                    'y := beta*y must assign zero when beta == 0 (documented: y need not be set on input), in the unit-stride and in the strided form; '
+                    'found %d branch(es) that test beta against zero and store the constant zero to y' % good, cfgname=cfgname)
+    return 1
+
+
+def supernode_sweep_rule(chk, cid, prog, p, cfgname):
+    """sp_?trsv sweeps the supernodes of L (or U) once: `for (k = 0; k <= nsuper; k++)` or `for (k = nsuper; k >= 0; k--)` (nsuper is the index of the
+    last supernode).  Every supernode has to be solved: the loop body may not leave the iteration early (continue / break), and in the branch for
+    supernodes of more than one column the triangular solve of the diagonal block is an unconditional statement."""
+    f = prog.func('sp_%strsv' % p)
+    if f is None:
+        from ..run import AnalysisBroken
+        raise AnalysisBroken('sp_%strsv not found' % p)
+    chk.saw(unit=f.unit, func=f.unit + ':' + f.name)
+    n = 0
+    solvers = {p + 'trsv_', p + 'lsolve', p + 'usolve'}
+    for lp in f.body.walk():
+        if lp.k != 'For':
+            continue
+        cond = strip(lp.c[1])
+        ctext = canon(cond, ids=False)
+        if 'nsuper' not in ctext and not ('nsuper' in canon(lp.c[0], ids=False)):
+            continue
+        n += 1
+        inst = '%s:supernode-sweep@%d' % (f.name, n)
+        init = canon(lp.c[0], ids=False)
+        up = 'nsuper' in ctext
+        ok_bounds = (up and re.match(r'^\(k <= \w+->nsuper\)$', ctext) and re.match(r'^\(k = 0\)$', init)) or \
+                    ((not up) and re.match(r'^\(k >= 0\)$', ctext) and re.match(r'^\(k = \w+->nsuper\)$', init))
+        body = lp.c[3]
+        early = [y for y in body.walk() if y.k in ('Continue', 'Break')]
+        # continue/break that belong to an inner loop are fine
+        inner = []
+        for z in body.walk():
+            if z.k in ('For', 'While'):
+                inner += [id(y) for y in z.walk() if y.k in ('Continue', 'Break')]
+        early = [y for y in early if id(y) not in inner]
+        # the triangular solve of the diagonal block may only be guarded by the size of the supernode (else-part of `nsupc == 1`, then-part of `nsupc > 1`)
+        found = []
+
+        def walk(x, guards):
+            if x.k == 'If':
+                walk(x.c[1], guards + [(canon(x.c[0], ids=False), True)])
+                if len(x.c) > 2:
+                    walk(x.c[2], guards + [(canon(x.c[0], ids=False), False)])
+                return
+            if x.k in ('For', 'While') and x is not body:
+                return      # a solve inside an inner loop is not the block solve
+            if x.k == 'Call' and callee_name(x) in solvers:
+                found.append(guards)
+                return
+            for c in x.c:
+                walk(c, guards)
+        walk(body, [])
+        uncond = bool(found) and all(all((g == '(nsupc == 1)' and not pol) or (g == '(nsupc > 1)' and pol) for (g, pol) in gs) for gs in found)
+        if ok_bounds and not early and uncond:
+            chk.ok(cid, inst, sample='for (%s; %s; ..)' % (init, ctext))
+        else:
+            why = []
+            if not ok_bounds:
+                why.append('the loop `for (%s; %s; ...)` does not run over supernodes 0..nsuper inclusive' % (init, ctext))
+            if early:
+                why.append('the body leaves an iteration early at line %d' % early[0].line)
+            if not uncond:
+                why.append('the triangular solve of the diagonal block is not an unconditional statement of the multi-column branch')
+            chk.violate(cid, inst, loc(f, (early or [lp])[0]), f.name, 'every supernode must be solved: ' + '; '.join(why), cfgname=cfgname)
+    if n < 4:
+        from ..run import AnalysisBroken
+        raise AnalysisBroken('sp_%strsv: %d supernode sweeps found, expected at least 4' % (p, n))
+    return n
